@@ -14,7 +14,10 @@ import Grass.Proto
     crates/compiler/src/parse/value.rs:1588,1623,1677 (the grammar the printed form is read back with)
 
   Numbers are exact rationals (DESIGN §6); the units are the closed set
-  px in cm mm pt | em rem | vw | % | deg turn | s ms | unitless, plus products/quotients of them.
+  px in cm mm q pt pc | em rem | vw | % | deg grad rad turn | s ms | Hz kHz | dpi dpcm dppx | unitless
+  (every unit of UNIT_CONVERSION_TABLE, unit/conversion.rs:15, i.e. every convertible family), plus
+  products/quotients of them.  `rad` factors contain `std::f64::consts::PI`, which IS a rational
+  (`piF`): the model follows the code's constant, not the real π (relative difference 4e-17).
   A panic of the real code (`HashMap` index in `Number::convert`, the `debug_assert!` before it) is the
   explicit outcome `Res.panic`; the model never totalises it away.
 -/
@@ -24,20 +27,23 @@ namespace Grass.Calc
 
 inductive BU where
   | px | inch | cm | mm | pt | em | rem | pct | vw | deg | turn | s | ms
+  | q | pc | grad | rad | hz | khz | dpi | dpcm | dppx
   deriving DecidableEq, Repr, Inhabited
 
 /-- `UnitKind` (unit/mod.rs:122). -/
 inductive Kind where
-  | absolute | fontRel | viewRel | angle | time | other | none
+  | absolute | fontRel | viewRel | angle | time | frequency | resolution | other | none
   deriving DecidableEq, Repr
 
 /-- `Unit::kind` (unit/mod.rs:196) on base units. -/
 def BU.kind : BU → Kind
-  | .px | .inch | .cm | .mm | .pt => .absolute
+  | .px | .inch | .cm | .mm | .pt | .q | .pc => .absolute
   | .em | .rem => .fontRel
   | .vw => .viewRel
-  | .deg | .turn => .angle
+  | .deg | .turn | .grad | .rad => .angle
   | .s | .ms => .time
+  | .hz | .khz => .frequency
+  | .dpi | .dpcm | .dppx => .resolution
   | .pct => .other
 
 /-- A `Unit` value: `Unit::None` = `⟨[],[]⟩`, a plain unit = `⟨[u],[]⟩`, everything else is
@@ -92,9 +98,11 @@ def knownCompat (u : CUnit) : Option Nat :=
   match u with
   | ⟨[b], []⟩ =>
     match b with
-    | .px | .inch | .cm | .mm | .pt | .em | .rem | .vw => some 0
-    | .deg | .turn => some 1
+    | .px | .inch | .cm | .mm | .pt | .q | .pc | .em | .rem | .vw => some 0
+    | .deg | .turn | .grad | .rad => some 1
     | .s | .ms => some 2
+    | .hz | .khz => some 3
+    | .dpi | .dpcm | .dppx => some 4
     | .pct => Option.none
   | _ => Option.none
 
@@ -109,43 +117,96 @@ def possiblyCompatible (strict : Bool) (a b : CUnit) : Bool :=
   | Option.none => true
   | some g => knownCompat b == some g || (knownCompat b).isNone
 
+/-- `std::f64::consts::PI` = 0x400921FB54442D18 = 884279719003555 / 2^48, exactly (the constant the
+    `rad` rows of the table are built from, unit/conversion.rs:7). -/
+def piF : Rat := 884279719003555 / 281474976710656
+
 /-- `UNIT_CONVERSION_TABLE[to].get(from)` (unit/conversion.rs:15): the factor that turns a value
     in `from` into a value in `to`.  Written entry by entry from the Rust table. -/
 def table (to frm : BU) : Option Rat :=
   match to, frm with
   | .inch, .inch => some 1
   | .inch, .cm => some (1 / (254/100))
+  | .inch, .pc => some (1 / 6)
   | .inch, .mm => some (1 / (254/10))
+  | .inch, .q => some (1 / (1016/10))
   | .inch, .pt => some (1 / 72)
   | .inch, .px => some (1 / 96)
   | .cm, .inch => some (254/100)
   | .cm, .cm => some 1
+  | .cm, .pc => some ((254/100) / 6)
   | .cm, .mm => some (1 / 10)
+  | .cm, .q => some (1 / 40)
   | .cm, .pt => some ((254/100) / 72)
   | .cm, .px => some ((254/100) / 96)
+  | .pc, .inch => some 6
+  | .pc, .cm => some (6 / (254/100))
+  | .pc, .pc => some 1
+  | .pc, .mm => some (6 / (254/10))
+  | .pc, .q => some (6 / (1016/10))
+  | .pc, .pt => some (1 / 12)
+  | .pc, .px => some (1 / 16)
   | .mm, .inch => some (254/10)
   | .mm, .cm => some 10
+  | .mm, .pc => some ((254/10) / 6)
   | .mm, .mm => some 1
+  | .mm, .q => some (1 / 4)
   | .mm, .pt => some ((254/10) / 72)
   | .mm, .px => some ((254/10) / 96)
+  | .q, .inch => some (1016/10)
+  | .q, .cm => some 40
+  | .q, .pc => some ((1016/10) / 6)
+  | .q, .mm => some 4
+  | .q, .q => some 1
+  | .q, .pt => some ((1016/10) / 72)
+  | .q, .px => some ((1016/10) / 96)
   | .pt, .inch => some 72
   | .pt, .cm => some (72 / (254/100))
+  | .pt, .pc => some 12
   | .pt, .mm => some (72 / (254/10))
+  | .pt, .q => some (72 / (1016/10))
   | .pt, .pt => some 1
   | .pt, .px => some (3 / 4)
   | .px, .inch => some 96
   | .px, .cm => some (96 / (254/100))
+  | .px, .pc => some 16
   | .px, .mm => some (96 / (254/10))
+  | .px, .q => some (96 / (1016/10))
   | .px, .pt => some (4 / 3)
   | .px, .px => some 1
   | .deg, .deg => some 1
+  | .deg, .grad => some (9 / 10)
+  | .deg, .rad => some (180 / piF)
   | .deg, .turn => some 360
+  | .grad, .deg => some (10 / 9)
+  | .grad, .grad => some 1
+  | .grad, .rad => some (200 / piF)
+  | .grad, .turn => some 400
+  | .rad, .deg => some (piF / 180)
+  | .rad, .grad => some (piF / 200)
+  | .rad, .rad => some 1
+  | .rad, .turn => some (2 * piF)
   | .turn, .deg => some (1 / 360)
+  | .turn, .grad => some (1 / 400)
+  | .turn, .rad => some (1 / (2 * piF))
   | .turn, .turn => some 1
   | .s, .s => some 1
   | .s, .ms => some (1 / 1000)
   | .ms, .s => some 1000
   | .ms, .ms => some 1
+  | .hz, .hz => some 1
+  | .hz, .khz => some 1000
+  | .khz, .hz => some (1 / 1000)
+  | .khz, .khz => some 1
+  | .dpi, .dpi => some 1
+  | .dpi, .dpcm => some (254/100)
+  | .dpi, .dppx => some 96
+  | .dpcm, .dpi => some (1 / (254/100))
+  | .dpcm, .dpcm => some 1
+  | .dpcm, .dppx => some (96 / (254/100))
+  | .dppx, .dpi => some (1 / 96)
+  | .dppx, .dpcm => some ((254/100) / 96)
+  | .dppx, .dppx => some 1
   | _, _ => Option.none
 
 /-- `conversion_factor(from, to)` (sass_number.rs:24). -/
@@ -541,11 +602,92 @@ def compile (cfg : Cfg) (src : CalcArg) : Res Out :=
   (visitValue cfg false src).bind fun o =>
     if printable o.arg then .ok o else .err .invalidCssValue
 
+/-! ### a zero divisor: what the real code goes on with
+
+    `impl Div for SassNumber` (sass_number.rs:341) divides the two `f64`s whatever the divisor is, so
+    `x / 0` is IEEE `+∞` (x > 0), `−∞` (x < 0) or NaN (x = 0), carrying the unit ordinary division
+    gives; the serializer writes `Infinity`, `-Infinity`, `NaN` followed by the unit
+    (serializer.rs:569, number.rs:266).  The pinned grass has no `infinity`/`NaN`/`pi` keywords inside
+    `calc()` (parse/value.rs:1588 `parse_calculation_value`: "Expected "(" or "."" ), so a zero divisor
+    (here or in `math.div`) is the only source of non-finite operands.  The model stops at the first
+    one (`Err.nonFinite`); these definitions describe that first non-finite number. -/
+
+inductive NF where
+  | pinf | ninf | nan
+  deriving DecidableEq, Repr
+
+/-- IEEE 754 `x / 0.0` for a finite `x` and a positive zero. -/
+def divZeroClass (x : Rat) : NF := if 0 < x then .pinf else if x < 0 then .ninf else .nan
+
+/-- the unit of `a / b` (independent of the magnitudes: `multiply_units` only threads the value). -/
+def divUnit (ua ub : CUnit) : CUnit :=
+  if ub.isNone then ua else (multiplyUnits ua 0 ub.invert).u
+
+/-- `Number::to_string` / `write_float` on a non-finite double (number.rs:266, serializer.rs:569). -/
+def nfText : NF → String
+  | .pinf => "Infinity" | .ninf => "-Infinity" | .nan => "NaN"
+
+/-- `calc(L / 0u)` with the zero written literally and `L` evaluating to a number: the class and unit
+    of the value grass prints.  (`literal`: the dividend is a literal too, so its sign is exact.) -/
+def nonFiniteTop (cfg : Cfg) : CalcArg → Option (NF × CUnit × Bool)
+  | .calculation .calc (.cons (.operation l .div (.number z ub)) .nil) =>
+    if z = 0 then
+      match visitValue cfg false l with
+      | .ok ⟨.number a ua, _⟩ =>
+        some (divZeroClass a, divUnit ua ub, match l with | .number _ _ => true | _ => false)
+      | _ => Option.none
+    else Option.none
+  | _ => Option.none
+
+/-! ### "all operands have known, mutually convertible units" (the first sentence of the property) -/
+
+/-- what the parser admits for each name (parse/value.rs:1718–1757) -/
+def arityOk : CName → CalcArgs → Bool
+  | .calc, .cons _ .nil => true
+  | .clamp, .cons _ (.cons _ (.cons _ .nil)) => true
+  | .min, .cons _ _ => true
+  | .max, .cons _ _ => true
+  | _, _ => false
+
+mutual
+/-- `plain g a`: `a` is built from numbers only; sums, `min`, `max`, `clamp` combine operands whose
+    units are all `has_compatible_units` with `g` (equal, or plain units of one convertible family of
+    the table); products and quotients are by unitless operands only. -/
+def plain : CUnit → CalcArg → Bool
+  | g, .number _ u => compatible u g
+  | _, .str _ _ => false
+  | _, .interp _ => false
+  | g, .operation l .plus r => plain g l && plain g r
+  | g, .operation l .minus r => plain g l && plain g r
+  | g, .operation l .mul r => (plain g l && plain CUnit.none r) || (plain CUnit.none l && plain g r)
+  | g, .operation l .div r => plain g l && plain CUnit.none r
+  | g, .calculation nm args => arityOk nm args && plainArgs g args
+def plainArgs : CUnit → CalcArgs → Bool
+  | _, .nil => true
+  | g, .cons a as => plain g a && plainArgs g as
+end
+
+mutual
+def leafUnits : CalcArg → List CUnit
+  | .number _ u => [u]
+  | .str _ _ => []
+  | .interp _ => []
+  | .operation l _ r => leafUnits l ++ leafUnits r
+  | .calculation _ args => leafUnitsArgs args
+def leafUnitsArgs : CalcArgs → List CUnit
+  | .nil => []
+  | .cons a as => leafUnits a ++ leafUnitsArgs as
+end
+
+/-- driver side: `plain g a` for the unit `g` of some leaf. -/
+def plainSome (a : CalcArg) : Bool := (leafUnits a).any (fun g => plain g a)
+
 /-! ### semantics: the quantity an expression denotes -/
 
 /-- A unit environment.  `px`, `deg`, `s` scale the canonical unit of each convertible kind (so an
     identity that holds for every environment is also dimensionally homogeneous: `3` and `3px`
     differ as soon as `px ≠ 1`); `em rem pct vw` are the lengths the relative units resolve to;
+    `hz`, `dppx` likewise for frequencies and resolutions;
     `atom` gives each opaque operand (`var()`, interpolation) a value. -/
 structure Env where
   px : Rat
@@ -555,10 +697,12 @@ structure Env where
   rem : Rat
   pct : Rat
   vw : Rat
+  hz : Rat
+  dppx : Rat
   atom : Nat → Option Rat
 
 def Env.wf (ρ : Env) : Prop :=
-  0 < ρ.px ∧ 0 < ρ.deg ∧ 0 < ρ.s ∧ 0 < ρ.em ∧ 0 < ρ.rem ∧ 0 < ρ.pct ∧ 0 < ρ.vw
+  0 < ρ.px ∧ 0 < ρ.deg ∧ 0 < ρ.s ∧ 0 < ρ.em ∧ 0 < ρ.rem ∧ 0 < ρ.pct ∧ 0 < ρ.vw ∧ 0 < ρ.hz ∧ 0 < ρ.dppx
 
 def BU.size (ρ : Env) : BU → Rat
   | .px => ρ.px
@@ -574,6 +718,15 @@ def BU.size (ρ : Env) : BU → Rat
   | .turn => 360 * ρ.deg
   | .s => ρ.s
   | .ms => ρ.s / 1000
+  | .q => 120 / 127 * ρ.px
+  | .pc => 16 * ρ.px
+  | .grad => 9 / 10 * ρ.deg
+  | .rad => 180 / piF * ρ.deg
+  | .hz => ρ.hz
+  | .khz => 1000 * ρ.hz
+  | .dpi => ρ.dppx / 96
+  | .dpcm => 127 / 4800 * ρ.dppx
+  | .dppx => ρ.dppx
 
 def prodSize (ρ : Env) : List BU → Rat
   | [] => 1
@@ -781,7 +934,7 @@ def rabs (x : Rat) : Rat := if x < 0 then -x else x
     half a unit in the 10th decimal plus relative f64 slack. -/
 def numErr (n : Rat) : Rat := 6 / 100000000000 + rabs n / 1000000000000
 
-def Env.unit : Env := ⟨1, 1, 1, 1, 1, 1, 1, fun _ => some 1⟩
+def Env.unit : Env := ⟨1, 1, 1, 1, 1, 1, 1, 1, 1, fun _ => some 1⟩
 
 mutual
 /-- value and first-order error bound of an expression whose numbers carry `numErr`. -/
@@ -837,12 +990,16 @@ def buOfStr : String → Option BU
   | "px" => some .px | "in" => some .inch | "cm" => some .cm | "mm" => some .mm | "pt" => some .pt
   | "em" => some .em | "rem" => some .rem | "%" => some .pct | "vw" => some .vw
   | "deg" => some .deg | "turn" => some .turn | "s" => some .s | "ms" => some .ms
+  | "q" => some .q | "pc" => some .pc | "grad" => some .grad | "rad" => some .rad
+  | "hz" => some .hz | "khz" => some .khz | "dpi" => some .dpi | "dpcm" => some .dpcm | "dppx" => some .dppx
   | _ => Option.none
 
 def buStr : BU → String
   | .px => "px" | .inch => "in" | .cm => "cm" | .mm => "mm" | .pt => "pt"
   | .em => "em" | .rem => "rem" | .pct => "%" | .vw => "vw"
   | .deg => "deg" | .turn => "turn" | .s => "s" | .ms => "ms"
+  | .q => "q" | .pc => "pc" | .grad => "grad" | .rad => "rad"
+  | .hz => "hz" | .khz => "khz" | .dpi => "dpi" | .dpcm => "dpcm" | .dppx => "dppx"
 
 def busOfStr (s : String) : Option (List BU) :=
   if s == "1" || s == "" then some [] else (s.splitOn "*").mapM buOfStr
@@ -969,11 +1126,11 @@ def cfgOfStr : String → Option Cfg
   | "now" => some Cfg.now | "spec" => some Cfg.spec | "old" => some Cfg.asFound | "d1" => some Cfg.asFoundD1
   | _ => Option.none
 
-/-- `px deg s em rem pct vw a0 a1 …` -/
+/-- `px deg s em rem pct vw hz dppx a0 a1 …` -/
 def envOfStrs (ss : List String) : Option Env :=
   match ss.mapM ratOfStr with
-  | some (px :: deg :: s :: em :: rem :: pct :: vw :: atoms) =>
-    some ⟨px, deg, s, em, rem, pct, vw, fun i => atoms[i]?⟩
+  | some (px :: deg :: s :: em :: rem :: pct :: vw :: hz :: dppx :: atoms) =>
+    some ⟨px, deg, s, em, rem, pct, vw, hz, dppx, fun i => atoms[i]?⟩
   | _ => Option.none
 
 def splitOnTok (sep : String) (ts : List String) : List (List String) :=
@@ -1028,6 +1185,13 @@ def handle : List String → String
     match cfgOfStr cfg, readWhole tree with
     | some cfg, some t => outStr (visitValue cfg false t)
     | _, _ => "bad-op"
+  | "nf" :: cfg :: tree =>
+    match cfgOfStr cfg, readWhole tree with
+    | some cfg, some t =>
+      match nonFiniteTop cfg t with
+      | some (k, u, lit) => s!"ok {nfText k} {unitStr u} {boolStr lit}"
+      | Option.none => "none"
+    | _, _ => "bad-op"
   | "print" :: tree =>
     match readWhole tree with
     | some t => "ok " ++ " ".intercalate ((pr t).map tokStr)
@@ -1078,7 +1242,7 @@ def handle : List String → String
             | .ok _ => "ok"
             | .err e => errStr e
             | .panic => "panic"
-          s!"ok tie={boolStr tie} val={val} defined={definedCount envs src} reprint={boolStr reprint} specsame={boolStr specSame} spec={specS} css={boolStr cssSame} strict={strictS} model= {modelS} impl= {treeStr it}"
+          s!"ok plain={boolStr (plainSome src)} tie={boolStr tie} val={val} defined={definedCount envs src} reprint={boolStr reprint} specsame={boolStr specSame} spec={specS} css={boolStr cssSame} strict={strictS} model= {modelS} impl= {treeStr it}"
       | _, _, _ => "bad-op"
     | _ => "bad-op"
   | _ => "bad-op"
